@@ -380,6 +380,11 @@ func (st *State) enter(b *ssa.BasicBlock, pred *ssa.BasicBlock) {
 		}
 		// loop entry: havoc and assume the invariant
 		vc.computeLoopMod(li)
+		var allocBefore *Term
+		if _, ok := vc.keySort[allocKey]; ok {
+			a := st.get(allocKey)
+			allocBefore = &a
+		}
 		for i := 0; i < nphi; i++ {
 			phi := b.Instrs[i].(*ssa.Phi)
 			v := st.freshVal("phi."+phi.Comment, phi.Type())
@@ -413,6 +418,11 @@ func (st *State) enter(b *ssa.BasicBlock, pred *ssa.BasicBlock) {
 					delete(st.heap, k)
 					vc.pendingHavoc(st, k)
 				}
+			}
+		}
+		if allocBefore != nil {
+			if now := st.get(allocKey); now.S != allocBefore.S {
+				st.addLine(fmt.Sprintf("(assert (forall ((r Int)) (! (=> (select %s r) (select %s r)) :pattern ((select %s r)))))", allocBefore.S, now.S, allocBefore.S))
 			}
 		}
 		// the function's frame condition is an implicit loop invariant: re-assume it for the havocked keys
@@ -758,6 +768,7 @@ func (st *State) step(in ssa.Instruction) {
 		np.Path = joinPath(p.Path, f.Name())
 		np.Elem = f.Type()
 		np.Typ = x.Type()
+		np = reroot(np)
 		st.bind(x, np)
 		st.guardCheck(np, false, in, true)
 	case *ssa.Field:
@@ -1400,4 +1411,12 @@ func (st *State) zeroInit(p PtrV, el types.Type) {
 		}
 		st.writeLeaf(p, lf, z)
 	}
+}
+
+// reroot: a value-embedded struct field whose address escapes (refEmbedded) is addressed as an object of its own type at the parent's ref.
+func reroot(p PtrV) PtrV {
+	if p.Kind == "obj" && refEmbedded[p.Root+"."+p.Path] {
+		return PtrV{Kind: "obj", Root: rootName(p.Elem), Base: p.Base, Path: "", Elem: p.Elem, Typ: p.Typ}
+	}
+	return p
 }
